@@ -40,6 +40,10 @@ func (p c07) Run(c *core.Ctx) {
 		p.preset(c)
 		return
 	}
+	if c.Index%16 == 3 {
+		p.twoApps(c)
+		return
+	}
 	// few types => many same-typed providers
 	pool := world.TypesAll
 	k := 2 + c.Rng.Intn(5)
@@ -73,6 +77,18 @@ func (p c07) Run(c *core.Ctx) {
 			{Name: "P2", Type: reflect.TypeOf(&p2model.Item{}), Tag: world.WireTag("wire", "verifharness/world/p2/model/Item")},
 		}
 		holders = append(holders, world.NewHolder(world.BuildStruct(fields)))
+	}
+	// instantiations of a generic type: their default names contain a comma inside brackets
+	if c.Rng.Intn(4) == 0 {
+		providers = append(providers, &world.Pair[int, string]{Tag: "is"}, &world.Pair[string, bool]{Tag: "sb"})
+		fields := []world.FieldSpec{
+			{Name: "G1", Type: world.TypeIA, Tag: world.WireTag("wire", "verifharness/world/Pair[int,string]")},
+			{Name: "G2", Type: world.TypeAny, Tag: world.WireTag("wire", "verifharness/world/Pair[string,bool],required=true")},
+			{Name: "G3", Type: reflect.TypeOf(&world.Pair[int, string]{}), Tag: world.WireTag("wire", "verifharness/world/Pair[int,string]")},
+			{Name: "G4", Type: world.TypeIA, Tag: world.WireTag("wire", "verifharness/world/Pair[int,int],required=false")},
+		}
+		holders = append(holders, world.NewHolder(world.BuildStruct(fields)))
+		c.Count("cases_with_generic_providers", 1)
 	}
 	repairUnsatisfiable(c, g, holders, 0.85, providers...)
 	runModelCase(c, g, holders, 3, true, classifyC07, providers)
@@ -289,4 +305,60 @@ func (p c07) preset(c *core.Ctx) {
 		return
 	}
 	c.Nontrivial(fmt.Sprintf("preset:%d:%v:%s", holderType, transient, g.Sc.GraphSig()))
+}
+
+// twoApps: two applications in one process. A component of the first application that is created on
+// demand only after the second application has run resolves its by-name points in its own application.
+func (p c07) twoApps(c *core.Ctx) {
+	mk := func(second bool) (*world.G, int, int) {
+		g := world.NewG(c.Rng)
+		prov := -1
+		if !second || c.Rng.Intn(2) == 0 {
+			t := []int{0, 1, 3}[c.Rng.Intn(3)] // implements IA
+			if second {
+				t = []int{2, 13}[c.Rng.Intn(2)] // same name, a type that does not fit the point
+			}
+			prov = g.AddNode(t, "shared-name")
+		}
+		if second {
+			g.AddNode([]int{0, 1, 3}[c.Rng.Intn(3)], "only-in-two")
+		}
+		h := g.AddNode([]int{8, 11}[c.Rng.Intn(2)], "on-demand") // lazy types
+		g.SetTag(h, "IA0", "wire", "shared-name")
+		g.SetTag(h, "IA1", "wire", "only-in-two,required=false")
+		g.SetTag(h, "Any0", "wire", "shared-name,required=false")
+		g.ShuffleOrders()
+		return g, prov, h
+	}
+	g1, p1, h1 := mk(false)
+	g2, _, _ := mk(true)
+	r1 := world.Start(g1.Sc, world.Options{})
+	c.Count("starts", 2)
+	if r1.Outcome() != "ok" {
+		c.Fail("", "first application did not start: "+core.Short(r1.OutcomeDetail(), 300), failDetail(g1.Sc, r1, nil))
+		return
+	}
+	r2 := world.Start(g2.Sc, world.Options{})
+	detail := failDetail(g1.Sc, r1, map[string]any{"second_application": describeScenario(g2.Sc), "second_outcome": r2.Outcome()})
+	if abnormal(r2.Outcome()) {
+		c.Fail("", "second application: "+core.Short(r2.OutcomeDetail(), 300), detail)
+		return
+	}
+	var err error
+	r1.Guard(func() { _, err = r1.App.GetComponentByName("on-demand") })
+	if r1.Panic != nil || err != nil {
+		c.Fail("", fmt.Sprintf("first application, component created on demand after a second application ran: its by-name point names a component of its own application, but the creation failed: %v %v", err, r1.Panic), detail)
+		return
+	}
+	sl := r1.Nodes[h1].Slot()
+	if sl.IA0 != any(r1.Nodes[p1]) || sl.Any0 != any(r1.Nodes[p1]) {
+		c.Fail("", fmt.Sprintf("first application: wire:\"shared-name\" holds %T %p / %T %p, the component registered under that name in this application is %p", sl.IA0, sl.IA0, sl.Any0, sl.Any0, r1.Nodes[p1]), detail)
+		return
+	}
+	if sl.IA1 != nil {
+		c.Fail("", fmt.Sprintf("first application: optional point naming a component that only exists in the other application was written (%T)", sl.IA1), detail)
+		return
+	}
+	c.Count("two_application_cases", 1)
+	c.Nontrivial("twoapps|" + g1.Sc.GraphSig() + "|" + g2.Sc.GraphSig())
 }
